@@ -488,6 +488,13 @@ func runC11(r *R) {
 	for _, l := range lines {
 		hostileBytes += len(l)
 	}
+	// hundreds of kilobytes of hostile data through a 200-byte socket buffer only burn scheduler steps (and real time:
+	// the run would hit the step bound or the real-time watchdog on a busy machine): large volumes travel with short
+	// reads only, and the step bound follows the volume
+	if hostileBytes > 60000 && netMode == 2 {
+		netMode = 1
+	}
+	cfg.MaxSteps = 400000 + 4*hostileBytes
 	var ms0, ms1 runtime.MemStats
 	runtime.ReadMemStats(&ms0)
 	defer func() {
